@@ -12,6 +12,7 @@ macro_rules! dispatch {
 			"C02" => Some($f::<props::c02::C02>($($arg),*)),
 			"C03" => Some($f::<props::c03::C03>($($arg),*)),
 			"C05" => Some($f::<props::c05::C05>($($arg),*)),
+			"C06" => Some($f::<props::c06::C06>($($arg),*)),
 			"C09" => Some($f::<props::c09::C09>($($arg),*)),
 			"C10" => Some($f::<props::c10::C10>($($arg),*)),
 			"C11" => Some($f::<props::c11::C11>($($arg),*)),
